@@ -19,13 +19,25 @@
 (*   filter headers are named by the same numbers                          *)
 (*   NF = nothing readable there, G = something unknown, ERR = call failed *)
 (*                                                                         *)
-(* cfg = [s, n, bs, hB, hF, x, kind, fy, fk, ck, cx, rsrc, rk, rkind]      *)
+(* cfg = [s, n, bs, hB, hF, x, kind, fy, fk, ck, cx, rsrc, rk, rkind,      *)
+(*        lt, ln]                                                          *)
 (*   s, n   start height and number of headers of both files               *)
 (*   bs     WriteBatchSizePerRegion                                        *)
 (*   hB,hF  tip heights of the block / filter header store before          *)
 (*   kind   "none" | "fork" (valid other branch from height x on) |        *)
 (*          "pow" | "bits" | "time" | "link" (header x breaks that rule,   *)
-(*          later headers are valid children)                              *)
+(*          later headers are valid children) | "easybits" (testnet-like   *)
+(*          rules only: header x, the on-time block after the late         *)
+(*          block(s), carries the limit bits instead of the difficulty of  *)
+(*          the last ancestor that is not a minimum-difficulty block)      *)
+(*   lt,ln  chain-parameter set.  lt = NF, ln = 0: regtest-like rules      *)
+(*          (every header at the limit bits).  lt >= 1: testnet-like rules *)
+(*          (ReduceMinDifficulty, no retarget inside the universe); the    *)
+(*          reference chain has hard bits except for ln consecutive late   *)
+(*          minimum-difficulty blocks at heights lt..lt+ln-1.  Which       *)
+(*          headers are valid is the generator's ground truth either way   *)
+(*          (ids < 200 and >= 300 valid, 200 + h not); no clause reads     *)
+(*          lt / ln.                                                       *)
 (*   fy     height FROM which the filter file alone differs (NF: none); a   *)
 (*          filter header commits to its predecessor, so a genuine other   *)
 (*          filter-header chain differs at every height from there on      *)
